@@ -348,4 +348,239 @@ Section DerivThm.
           rewrite (lit_pred (l - 1)) by lia. rewrite !(lit_pred l) by lia. cbn [lit]. ring.
     Qed.
   End Cos2.
+
+  (** *** unified view of [d_dlon] (both layouts) *)
+  Definition jmul (fast : bool) (i : nat) : nat := if fast then dfast_j 0 i else dref_j i.
+  Definition dcond (fast : bool) (i : nat) : bool := if fast then dfast_cond i else dref_cond i.
+
+  Lemma d_dlon_unfold fast R (x : arr2) i l :
+    (i < R)%nat ->
+    d_dlon fast R x i l =
+    lit (jmul fast i) * (if dcond fast i
+                         then (if Nat.ltb (S i) R then x (S i) l else 0)
+                         else - (if Nat.eqb i 0 then 0 else x (i - 1)%nat l)).
+  Proof.
+    intros Hi. unfold d_dlon, jmul, dcond. destruct fast.
+    - rewrite dlon_fast_unfold by assumption. reflexivity.
+    - rewrite dlon_ref_unfold by assumption. reflexivity.
+  Qed.
+
+  Lemma d_dlon_opp fast R (x : arr2) i l :
+    (i < R)%nat -> d_dlon fast R (fun i l => - x i l) i l = - d_dlon fast R x i l.
+  Proof.
+    intros Hi. rewrite !d_dlon_unfold by assumption.
+    destruct (dcond fast i), (Nat.ltb (S i) R), (Nat.eqb i 0); ring.
+  Qed.
+
+  Lemma d_dlon_div fast R (x : arr2) r i l :
+    r <> 0 -> (i < R)%nat -> d_dlon fast R (fun i l => x i l / r) i l = d_dlon fast R x i l / r.
+  Proof.
+    intros Hr Hi. rewrite !d_dlon_unfold by assumption.
+    destruct (dcond fast i), (Nat.ltb (S i) R), (Nat.eqb i 0); field; exact Hr.
+  Qed.
+
+  Lemma d_dlon_ext fast R (x y : arr2) i l :
+    (forall i', (i' < R)%nat -> x i' l = y i' l) -> (i < R)%nat ->
+    d_dlon fast R x i l = d_dlon fast R y i l.
+  Proof.
+    intros H Hi. rewrite !d_dlon_unfold by assumption.
+    destruct (dcond fast i).
+    - destruct (Nat.ltb_spec (S i) R); [rewrite H by lia|]; reflexivity.
+    - destruct (Nat.eqb_spec i 0); [|rewrite H by lia]; reflexivity.
+  Qed.
+
+  (** the layout's row count has the parity the code insists on *)
+  Definition layout_ok (fast : bool) (R : nat) : Prop := (R mod 2 = if fast then 0 else 1)%nat.
+
+  (** partner row (cos <-> sin of the same wavenumber) *)
+  Definition partner (fast : bool) (i : nat) : nat :=
+    if dcond fast i then S i else (i - 1)%nat.
+
+  Lemma d_dlon_partner fast R (x : arr2) i l :
+    layout_ok fast R -> (i < R)%nat ->
+    (partner fast i < R)%nat /\
+    d_dlon fast R x i l = (if dcond fast i then lit (jmul fast i) else - lit (jmul fast i)) * x (partner fast i) l.
+  Proof.
+    intros HR Hi. rewrite d_dlon_unfold by assumption. unfold partner, layout_ok in *.
+    destruct fast; unfold dcond, jmul, dfast_cond, dref_cond, dfast_j, dref_j in *.
+    - destruct (Nat.eqb_spec ((i + 1) mod 2) 0) as [E|E]; cbn [negb].
+      + split; [lia|]. destruct (Nat.eqb_spec i 0); [lia|]. ring.
+      + split; [lia|]. destruct (Nat.ltb_spec (S i) R); [ring|lia].
+    - destruct (Nat.eqb_spec (i mod 2) 0) as [E|E]; cbn [negb].
+      + split; [lia|]. destruct (Nat.eqb_spec i 0) as [->|]; [cbn; ring|ring].
+      + split; [lia|]. destruct (Nat.ltb_spec (S i) R); [ring|lia].
+  Qed.
+
+  (** d_dlon commutes with every tridiagonal column operator whose weights agree on partner rows
+      (or vanish where the multiplier is zero: row 0) *)
+  Definition sym_rows (fast : bool) (R : nat) (w : nat -> nat -> F) : Prop :=
+    forall i l, (i < R)%nat -> jmul fast i <> 0%nat -> w i l = w (partner fast i) l.
+
+  Lemma tri_dlon_commute fast R C (wm wp : nat -> nat -> F) (x : arr2) i l :
+    layout_ok fast R -> (i < R)%nat -> sym_rows fast R wm -> sym_rows fast R wp ->
+    d_dlon fast R (tri C wm wp x) i l = tri C wm wp (d_dlon fast R x) i l.
+  Proof.
+    intros HR Hi Sm Sp.
+    destruct (d_dlon_partner fast R (tri C wm wp x) i l HR Hi) as [Hp ->].
+    unfold tri.
+    rewrite (proj2 (d_dlon_partner fast R x i (S l) HR Hi)).
+    rewrite (proj2 (d_dlon_partner fast R x i (l - 1)%nat HR Hi)).
+    destruct (Nat.eq_dec (jmul fast i) 0) as [E|E].
+    - rewrite E. cbn [lit]. destruct (dcond fast i), (Nat.ltb (S l) C), (Nat.eqb l 0); ring.
+    - rewrite (Sm i (S l) Hi E), (Sp i (l - 1)%nat Hi E).
+      destruct (dcond fast i), (Nat.ltb (S l) C), (Nat.eqb l 0); ring.
+  Qed.
+
+  Lemma tri_ext C (wm wp : nat -> nat -> F) (x y : arr2) i l :
+    (forall l', x i l' = y i l') -> tri C wm wp x i l = tri C wm wp y i l.
+  Proof. intros H. unfold tri. now rewrite !H. Qed.
+
+  Theorem dlon_commutes fast L R C (a b x : arr2) i l :
+    layout_ok fast R -> (i < R)%nat -> (l < C)%nat -> sym_rows fast R a -> sym_rows fast R b ->
+    d_dlon fast R (D1 L C a b x) i l = D1 L C a b (d_dlon fast R x) i l /\
+    d_dlon fast R (D2 L C a b x) i l = D2 L C a b (d_dlon fast R x) i l /\
+    d_dlon fast R (Mmu C a b x) i l = Mmu C a b (d_dlon fast R x) i l.
+  Proof.
+    intros HR Hi Hl Sa Sb.
+    assert (S1 : forall f : nat -> F, sym_rows fast R (fun i l => f l * a i l)).
+    { intros f i' l' H1 H2. now rewrite (Sa i' l' H1 H2). }
+    assert (S2 : forall f : nat -> F, sym_rows fast R (fun i l => f l * b i l)).
+    { intros f i' l' H1 H2. now rewrite (Sb i' l' H1 H2). }
+    repeat split.
+    - rewrite (D1_entries L C a b (d_dlon fast R x)) by assumption.
+      rewrite <- (tri_dlon_commute fast R C _ _ x i l HR Hi
+                    (S1 (fun l => lit (laxis L l) + 1)) (S2 (fun l => - lit (laxis L l)))).
+      apply d_dlon_ext; [|assumption]. intros i' _. now apply D1_entries.
+    - rewrite (D2_entries L C a b (d_dlon fast R x)) by assumption.
+      rewrite <- (tri_dlon_commute fast R C _ _ x i l HR Hi
+                    (S1 (fun l => lit (laxis L l) - 1)) (S2 (fun l => - (lit (laxis L l) + (1 + 1))))).
+      apply d_dlon_ext; [|assumption]. intros i' _. now apply D2_entries.
+    - rewrite (Mmu_entries C a b (d_dlon fast R x)) by assumption.
+      rewrite <- (tri_dlon_commute fast R C _ _ x i l HR Hi Sa Sb).
+      apply d_dlon_ext; [|assumption]. intros i' _. now apply Mmu_entries.
+  Qed.
+
+  (** *** linearity of the latitude operators *)
+  Lemma D2_opp L C (a b x : arr2) i l :
+    (l < C)%nat -> D2 L C a b (fun i l => - x i l) i l = - D2 L C a b x i l.
+  Proof.
+    intros Hl. rewrite !D2_entries by assumption. unfold tri.
+    destruct (Nat.ltb (S l) C), (Nat.eqb l 0); ring.
+  Qed.
+
+  Lemma D2_div L C (a b x : arr2) r i l :
+    r <> 0 -> (l < C)%nat -> D2 L C a b (fun i l => x i l / r) i l = D2 L C a b x i l / r.
+  Proof.
+    intros Hr Hl. rewrite !D2_entries by assumption. unfold tri.
+    destruct (Nat.ltb (S l) C), (Nat.eqb l 0); field; exact Hr.
+  Qed.
+
+  (** *** vector algebra of the coefficient operators (no nodal step) *)
+  Theorem div_kcross fast L R C r (a b : arr2) c (v : vec2) i l :
+    r <> 0 -> (i < R)%nat -> (l < C)%nat ->
+    div_cos_lat fast L R C r a b c (k_cross v) i l = - curl_cos_lat fast L R C r a b c v i l.
+  Proof.
+    intros Hr Hi Hl. unfold div_cos_lat, curl_cos_lat, k_cross, clip_if, clip. cbn [fst snd].
+    destruct c; rewrite d_dlon_opp by assumption; field; exact Hr.
+  Qed.
+
+  Theorem curl_kcross fast L R C r (a b : arr2) c (v : vec2) i l :
+    r <> 0 -> (i < R)%nat -> (l < C)%nat ->
+    curl_cos_lat fast L R C r a b c (k_cross v) i l = div_cos_lat fast L R C r a b c v i l.
+  Proof.
+    intros Hr Hi Hl. unfold div_cos_lat, curl_cos_lat, k_cross, clip_if, clip. cbn [fst snd].
+    destruct c; rewrite D2_opp by assumption; field; exact Hr.
+  Qed.
+
+  (** curl of the (cos^2-weighted) spectral gradient is 2 M_mu d_dlon / r^2, not 0:
+      the sec^2 factor of the nodal path is needed *)
+  Theorem curl_grad_spectral fast L R C r (a b x : arr2) i l :
+    r <> 0 -> layout_ok fast R -> (i < R)%nat -> (l < C)%nat -> sym_rows fast R a -> sym_rows fast R b ->
+    curl_cos_lat fast L R C r a b false (cos_lat_grad fast L R C r a b false x) i l
+    = (1 + 1) * Mmu C a b (d_dlon fast R x) i l / (r * r).
+  Proof.
+    intros Hr HR Hi Hl Sa Sb. unfold curl_cos_lat, cos_lat_grad, clip_if. cbn [fst snd].
+    rewrite d_dlon_div, D2_div by assumption.
+    destruct (dlon_commutes fast L R C a b x i l HR Hi Hl Sa Sb) as (E1 & _ & _).
+    rewrite E1, D2_eq_D1_minus_2mu by assumption. field. exact Hr.
+  Qed.
+
+  (** div of the spectral gradient: (d_dlon^2 + D1 D1 - 2 M_mu D1)/r^2 *)
+  Theorem div_grad_spectral fast L R C r (a b x : arr2) i l :
+    r <> 0 -> (i < R)%nat -> (l < C)%nat ->
+    div_cos_lat fast L R C r a b false (cos_lat_grad fast L R C r a b false x) i l
+    = (d_dlon fast R (d_dlon fast R x) i l + D1 L C a b (D1 L C a b x) i l
+       - (1 + 1) * Mmu C a b (D1 L C a b x) i l) / (r * r).
+  Proof.
+    intros Hr Hi Hl. unfold div_cos_lat, cos_lat_grad, clip_if. cbn [fst snd].
+    rewrite d_dlon_div, D2_div by assumption.
+    rewrite D2_eq_D1_minus_2mu by assumption. field. exact Hr.
+  Qed.
+
+  (** *** homogeneity in the radius *)
+  Theorem radius_scaling fast L R C r k (a b x : arr2) (v : vec2) c i l :
+    r <> 0 -> k <> 0 ->
+    laplacian L (k * r) x i l = laplacian L r x i l / (k * k) /\
+    ((1 <= l < L)%nat -> lit l <> 0 -> lit l + 1 <> 0 ->
+     inverse_laplacian L (k * r) x i l = inverse_laplacian L r x i l * (k * k)) /\
+    fst (cos_lat_grad fast L R C (k * r) a b c x) i l = fst (cos_lat_grad fast L R C r a b c x) i l / k /\
+    snd (cos_lat_grad fast L R C (k * r) a b c x) i l = snd (cos_lat_grad fast L R C r a b c x) i l / k /\
+    div_cos_lat fast L R C (k * r) a b c v i l = div_cos_lat fast L R C r a b c v i l / k /\
+    curl_cos_lat fast L R C (k * r) a b c v i l = curl_cos_lat fast L R C r a b c v i l / k.
+  Proof.
+    intros Hr Hk. repeat split.
+    - unfold laplacian. rewrite !lap_eig_val. field. split; assumption.
+    - intros Hl H0 H1. unfold inverse_laplacian, inv_eig.
+      destruct (Nat.eqb_spec l 0); [lia|]. destruct (Nat.leb_spec L l); [lia|].
+      rewrite !lap_eig_val, laxis_lt by lia.
+      assert (Hn : - lit l <> 0) by (intro E; apply H0; transitivity (- - lit l); [ring|rewrite E; ring]).
+      field. repeat split; assumption.
+    - unfold cos_lat_grad, clip_if, clip. cbn [fst]. destruct c; field; split; assumption.
+    - unfold cos_lat_grad, clip_if, clip. cbn [snd]. destruct c; field; split; assumption.
+    - unfold div_cos_lat, clip_if, clip. destruct c; field; split; assumption.
+    - unfold curl_cos_lat, clip_if, clip. destruct c; field; split; assumption.
+  Qed.
+
+  (** *** what the default clip removes: the top coefficient of cos(lat) d/dlat of a field of degree L-2 *)
+  Theorem grad_top_clipped fast L R C r (a b x : arr2) i :
+    r <> 0 -> (2 <= L <= C)%nat -> ((L < C)%nat -> x i L = 0) ->
+    snd (cos_lat_grad fast L R C r a b true x) i (L - 1)%nat = 0 /\
+    snd (cos_lat_grad fast L R C r a b false x) i (L - 1)%nat
+    = - lit (L - 2) * b i (L - 2)%nat * x i (L - 2)%nat / r /\
+    (forall l, (l + 1 < L)%nat ->
+       snd (cos_lat_grad fast L R C r a b true x) i l = snd (cos_lat_grad fast L R C r a b false x) i l).
+  Proof.
+    intros Hr HL Hx. unfold cos_lat_grad, clip_if, clip. cbn [snd]. repeat split.
+    - destruct (Nat.ltb_spec (L - 1) (C - (1 + (C - L)))); [lia|]. field. exact Hr.
+    - rewrite D1_entries by lia. unfold tri.
+      replace (S (L - 1)) with L by lia. replace (L - 1 - 1)%nat with (L - 2)%nat by lia.
+      destruct (Nat.eqb_spec (L - 1) 0); [lia|].
+      rewrite (laxis_lt L (L - 2)) by lia.
+      destruct (Nat.ltb_spec L C) as [H|H].
+      + rewrite (Hx H). field. exact Hr.
+      + field. exact Hr.
+    - intros l Hl. destruct (Nat.ltb_spec l (C - (1 + (C - L)))); [|lia]. field. exact Hr.
+  Qed.
+
+  (** *** identities through the nodal sec^2 step, from the two abstract hypotheses H_sec2
+      ([S] = to_modal(sec^2 * to_nodal(.)), not modelled here; the hypotheses are table obligations
+      checked on every basis vector of degree <= L-3 on every explored grid) *)
+  Theorem vecid_sec2 fast L R C r (a b : arr2) (S : arr2 -> arr2) (psi : arr2) i l :
+    r <> 0 -> (i < R)%nat -> (l < C)%nat ->
+    let g := cos_lat_grad fast L R C r a b true psi in
+    let sg := (S (fst g), S (snd g)) in
+    (* H_sec2_curl *) d_dlon fast R (S (snd g)) i l = D2 L C a b (S (fst g)) i l ->
+    (* H_sec2_div  *) d_dlon fast R (S (fst g)) i l + D2 L C a b (S (snd g)) i l = r * laplacian L r psi i l ->
+    curl_cos_lat fast L R C r a b true sg i l = 0 /\
+    div_cos_lat fast L R C r a b true (k_cross sg) i l = 0 /\
+    div_cos_lat fast L R C r a b true sg i l = clip L C 1 (laplacian L r psi) i l.
+  Proof.
+    intros Hr Hi Hl g sg Hc Hd.
+    assert (E1 : curl_cos_lat fast L R C r a b true sg i l = 0).
+    { unfold curl_cos_lat, clip_if, clip, sg. cbn [fst snd]. rewrite Hc. field. exact Hr. }
+    repeat split.
+    - exact E1.
+    - rewrite div_kcross by assumption. rewrite E1. ring.
+    - unfold div_cos_lat, clip_if, clip, sg. cbn [fst snd]. rewrite Hd. field. exact Hr.
+  Qed.
 End DerivThm.
